@@ -322,6 +322,11 @@ class Run(object):
             swapped = dict(miss)
             swapped['other-key'] = plain[k0]
             chk('eq[mapping,key-replaced]', lambda: d == swapped, False)
+            wild = dict(miss)
+            wild['other-key'] = ANYTHING      # a matcher (mock.ANY-like) under a key the multidict does not have
+            chk('eq[mapping,key-replaced,matcher-value]', lambda: d == wild, False)
+            allwild = dict((k, ANYTHING) for k in plain)
+            chk('eq[mapping,matcher-values]', lambda: d == allwild, True)
         extra = dict(plain)
         extra['other-key'] = 1
         chk('eq[mapping,extra-key]', lambda: d == extra, False)
@@ -584,6 +589,23 @@ class Run(object):
             self.d = c
         else:
             raise ValueError(op)
+
+
+class Anything(object):
+    """Equal to everything (what mock.ANY is)."""
+    def __eq__(self, other):
+        return True
+
+    def __ne__(self, other):
+        return False
+
+    __hash__ = object.__hash__
+
+    def __repr__(self):
+        return '<ANYTHING>'
+
+
+ANYTHING = Anything()
 
 
 class Check(object):
